@@ -51,21 +51,6 @@ func ElemZero[T any](<-chan T) T {
 	return z
 }
 
-func goid() uint64 {
-	var buf [48]byte
-	n := runtime.Stack(buf[:], false)
-	// "goroutine 123 ["
-	var id uint64
-	for i := 10; i < n; i++ {
-		c := buf[i]
-		if c < '0' || c > '9' {
-			break
-		}
-		id = id*10 + uint64(c-'0')
-	}
-	return id
-}
-
 // Event is one entry of the totally ordered event log written by harness code.
 type Event struct {
 	Seq  uint64 // scheduler step at which it was appended
@@ -100,25 +85,28 @@ type task struct {
 
 // Config holds the knobs of one simulated run that belong to the runtime (the harness has its own).
 type Config struct {
-	Strategy      string  `json:"strategy"`        // rr | rw | sticky | pct | delay
-	SwitchProb    float64 `json:"switch_prob"`     // sticky: probability of a pre-emption at a step
-	PCTDepth      int     `json:"pct_depth"`       // pct: number of priority change points
-	PCTSteps      int     `json:"pct_steps"`       // pct: estimated run length for placing change points
-	DelayMod      int     `json:"delay_mod"`       // delay: 1/DelayMod of sites are "slow"
-	StallPermille int     `json:"stall_permille"`  // stall fault probability per step (0 = off)
-	StallMaxMs    int     `json:"stall_max_ms"`    // stall duration upper bound
-	MaxStalls     int     `json:"max_stalls"`      // cap on stalls per run
-	SelectShuffle float64 `json:"select_shuffle"`  // probability that a select polls in non-source order
-	RandExtreme   float64 `json:"rand_extreme"`    // probability that a simulated random draw is a boundary value
-	MaxSteps      uint64  `json:"max_steps"`       // step cap (run becomes inconclusive)
-	MaxSimNs      int64   `json:"max_sim_ns"`      // simulated-time cap (hang detection)
-	StallSites    string  `json:"stall_sites"`     // substring filter: only tasks parked at matching sites are stalled ("" = any)
-	PreferSites   string  `json:"prefer_sites"`    // substring: pre-emptions are concentrated at these sites
+	Strategy      string  `json:"strategy"`       // rr | rw | sticky | pct | delay
+	SwitchProb    float64 `json:"switch_prob"`    // sticky: probability of a pre-emption at a step
+	PCTDepth      int     `json:"pct_depth"`      // pct: number of priority change points
+	PCTSteps      int     `json:"pct_steps"`      // pct: estimated run length for placing change points
+	DelayMod      int     `json:"delay_mod"`      // delay: 1/DelayMod of sites are "slow"
+	StallPermille int     `json:"stall_permille"` // stall fault probability per step (0 = off)
+	StallMaxMs    int     `json:"stall_max_ms"`   // stall duration upper bound
+	MaxStalls     int     `json:"max_stalls"`     // cap on stalls per run
+	SelectShuffle float64 `json:"select_shuffle"` // probability that a select polls in non-source order
+	RandExtreme   float64 `json:"rand_extreme"`   // probability that a simulated random draw is a boundary value
+	MaxSteps      uint64  `json:"max_steps"`      // step cap (run becomes inconclusive)
+	MaxSimNs      int64   `json:"max_sim_ns"`     // simulated-time cap (hang detection)
+	StallSites    string  `json:"stall_sites"`    // substring filter: only tasks parked at matching sites are stalled ("" = any)
+	PreferSites   string  `json:"prefer_sites"`   // substring: pre-emptions are concentrated at these sites
+	NoFastPath    bool    `json:"no_fast_path"`   // every yield goes through the scheduler
 }
 
 // Stats is what the runtime measured in one run.
 type Stats struct {
 	Steps         uint64            `json:"steps"`
+	FastYields    uint64            `json:"fast_yields"`
+	SchedSteps    uint64            `json:"sched_steps"`
 	Switches      uint64            `json:"switches"`
 	Preempts      uint64            `json:"preempts"`
 	Stalls        uint64            `json:"stalls"`
@@ -147,7 +135,9 @@ type Sim struct {
 	byGoid   map[uint64]*task
 	rootGoid uint64
 	arrive   chan struct{}
-	step     uint64
+	step     uint64 // real scheduling steps
+	clock    uint64 // strictly increasing sequence number: scheduling steps, fast yields and log entries
+	fastRun  int
 	cur      *task
 	mainDone bool
 	killed   bool
@@ -162,6 +152,7 @@ type Sim struct {
 	// TraceOut, when non-nil, receives one line per scheduling step (replay rendering).
 	TraceOut *[]string
 	start    time.Time
+	fast     bool
 }
 
 type stepHook struct {
@@ -189,6 +180,7 @@ func New(cfg Config, ch *Choices) *Sim {
 		trace:    14695981039346656037,
 		start:    time.Now(),
 	}
+	s.fast = (cfg.Strategy == "sticky" || cfg.Strategy == "rr" || cfg.Strategy == "") && !cfg.NoFastPath
 	if cfg.Strategy == "pct" {
 		s.pctPts = map[uint64]bool{}
 		n := cfg.PCTSteps
@@ -209,7 +201,7 @@ func New(cfg Config, ch *Choices) *Sim {
 func (s *Sim) Now() int64 { return int64(time.Since(s.start)) }
 
 // Step returns the current scheduler step.
-func (s *Sim) Step() uint64 { return atomic.LoadUint64(&s.step) }
+func (s *Sim) Step() uint64 { return atomic.LoadUint64(&s.clock) }
 
 // Go creates an explicitly named task running fn. Only the root goroutine (before Run) or a running
 // task may call it.
@@ -264,7 +256,45 @@ func Yield(site string) {
 	if g == s.rootGoid {
 		return
 	}
+	if s.fast && s.fastYield(g, site) {
+		return
+	}
 	s.park(g, site, nil, nil)
+}
+
+// fastYield decides, in the running task itself, to keep running without a round trip through the
+// scheduler (only for the strategies whose default is "keep the running task": sticky, rr). The decision
+// is an entry of the choice vector like any other; a real scheduling point is forced at least every
+// fastMax yields, and always when the caller is not the task that holds the token.
+const fastMax = 48
+
+func (s *Sim) fastYield(g uint64, site string) bool {
+	s.mu.Lock()
+	if s.killed || s.cur == nil || s.cur.goid != g || s.fastRun >= fastMax {
+		s.mu.Unlock()
+		return false
+	}
+	p := s.cfg.SwitchProb
+	if s.cfg.PreferSites != "" && matchAny(site, s.cfg.PreferSites) {
+		p = 0.5
+	}
+	v := s.ch.Draw('Y', 2, func(r *Rng) uint32 {
+		if s.cfg.Strategy == "rr" || r.Float64() >= p {
+			return 0
+		}
+		return 1
+	})
+	if v != 0 {
+		s.mu.Unlock()
+		return false
+	}
+	s.fastRun++
+	s.stats.FastYields++
+	atomic.AddUint64(&s.clock, 1)
+	s.trace = mix(s.trace, strHash(site))
+	s.cur.site = site
+	s.mu.Unlock()
+	return true
 }
 
 // Park blocks the calling task until pred() holds and the scheduler picks it; acquire() is then run
@@ -333,7 +363,8 @@ func (s *Sim) Log(kind string, a, b int64, str string) {
 		name = t.name
 	}
 	if !s.killed {
-		s.events = append(s.events, Event{Seq: s.step, T: s.Now(), Task: name, Kind: kind, A: a, B: b, S: str})
+		seq := atomic.AddUint64(&s.clock, 1)
+		s.events = append(s.events, Event{Seq: seq, T: s.Now(), Task: name, Kind: kind, A: a, B: b, S: str})
 	}
 	s.mu.Unlock()
 }
@@ -401,7 +432,7 @@ func (s *Sim) Run() {
 			break
 		}
 		now := s.Now()
-		if s.step >= s.cfg.MaxSteps {
+		if atomic.LoadUint64(&s.clock) >= s.cfg.MaxSteps {
 			s.stats.StepCapHit = true
 			s.mu.Unlock()
 			break
@@ -420,7 +451,7 @@ func (s *Sim) Run() {
 		// asynchronous environment actions due at this step
 		var due []func()
 		for i := range s.hooks {
-			if !s.hooks[i].done && s.hooks[i].step <= s.step {
+			if !s.hooks[i].done && s.hooks[i].step <= atomic.LoadUint64(&s.clock) {
 				s.hooks[i].done = true
 				due = append(due, s.hooks[i].fn)
 			}
@@ -477,6 +508,8 @@ func (s *Sim) Run() {
 		t.parked = false
 		t.pred, t.acquire = nil, nil
 		s.step++
+		atomic.AddUint64(&s.clock, 1)
+		s.fastRun = 0
 		t.steps++
 		s.trace = mix(mix(s.trace, uint64(t.idx)), strHash(t.site))
 		if s.cur != t {
@@ -499,7 +532,8 @@ func (s *Sim) Run() {
 		s.mu.Unlock()
 		t.resume <- struct{}{}
 	}
-	s.stats.Steps = s.step
+	s.stats.Steps = atomic.LoadUint64(&s.clock)
+	s.stats.SchedSteps = s.step
 	s.stats.SimNs = s.Now()
 	s.stats.Tasks = len(s.tasks)
 	s.stats.SitePairs = len(s.pairs)
